@@ -1,4 +1,5 @@
 import HapVerif.Model.Counters
+import HapVerif.Gen.Misc
 
 /-! # C06 - no nonce is reused and no encrypted message is accepted twice or out of order -/
 
@@ -269,5 +270,12 @@ theorem C06_coap_counterexample_replay :
 theorem C06_coap_counterexample_nonce_reuse :
     sealedOf (coapRun {} ((List.range 7).flatMap (fun j => [CoapEv.request, CoapEv.response (.genuine j)]) ++
       [.response (.genuine 0), .request])) = [0, 1, 2, 3, 4, 5, 6, 0] := by decide
+
+/-- tie to the source (regenerated on every run from `EncryptionContext._decrypt_response`): the counters the CoAP
+    resynchronisation tries are the current one, then up to `rewind` earlier ones, then `forward` later ones, with
+    the source's window sizes -/
+theorem C06_gen_tie (recv : Nat) :
+    candidates recv = [recv] ++ List.range' (recv - min Gen.Misc.coapRewind recv) (min Gen.Misc.coapRewind recv) ++
+      List.range' (recv + 1) Gen.Misc.coapForward := rfl
 
 end HapVerif.C06
